@@ -6,6 +6,21 @@ HERE = os.path.dirname(os.path.dirname(os.path.abspath(__file__)))
 
 # id -> (technique, level text, level note, design ref)
 CHECKS = {
+ 'C09': ('Hypothesis cases x prior RNG states x intermediate-op histories; invariant on numpy.random.get_state(); digest round trip in-process; differential re-evaluation in fresh interpreters with other PYTHONHASHSEED values',
+         'Every ampycloud call in every history is bracketed by a bit-exact comparison of the global RNG state; each case is evaluated twice in-process around a drawn history and three more times in fresh interpreters (hash seeds 1, 4242, random; different orders) and all snapshot digests must agree.',
+         'Thread counts pinned to 1; one machine / one BLAS.', '5/C09'),
+ 'C11': ('Hypothesis RuleBasedStateMachine over build / run / stage / edit-global / edit-snapshot / reset ops against deep-copy models of every caller object, the global dict and every chunk snapshot',
+         'Hundreds of histories (<= 25 ops) per run with an invariant after every op: caller frames and dicts, the global dict and every live chunk snapshot must equal their models. Shrunk histories are saved as op lists and replayed through the same interpreter without Hypothesis.',
+         'List-value aliasing between caller dict and snapshot is deliberately not asserted (not claimed by the statement).', '5/C11'),
+ 'C12': ('differential testing of the three parameter routes (per-call, global dict, YAML/set_prms) on generated assignments over arbitrary prior global contents; poisoned-global metamorphic run; reset_prms against an independent read of the packaged YAML',
+         'For each generated (scene, G0, P) the three routes must give identical chunk.prms, tables, data and messages; the per-call run must survive "POISON" sentinels in every global leaf it overrides; unknown keys must warn and add nothing; reset_prms (all / str / list) must restore exactly the packaged defaults, twice, with in-place edits in between.',
+         'Packaged defaults are read by the harness own YAML load.', '5/C12'),
+ 'C13': ('exhaustive stage interleavings of 2 chunks (70 per drawn pair), sampled/enumerated interleavings of 3 chunks, and PCT-style randomised pre-emption at ampycloud source-line granularity under a harness-owned sys.monitoring scheduler; oracle = isolated sequential reference',
+         'The schedule is owned by the harness (baton passing on LINE events inside ampycloud code only), so a failing schedule is a replayable (case, switch vector). Stage-level interleavings are enumerated completely per drawn pair; line-level schedules are drawn by Hypothesis (1-40 switch points).',
+         'Line granularity inside ampycloud only; no races inside C extensions or under real parallelism.', '5/C13'),
+ 'C20': ('Hypothesis chunks (incl. > 10 instruments, > 8 sets, no hits, VV) x plot-argument histories with side-effect oracles (exception, chunk snapshot, rcParams, open figures, directory listing)',
+         'Each case renders 1-4 plots in one process into a fresh temporary directory; after each plot the chunk snapshot, dict(rcParams), the open-figure list and the directory listing are compared with their expected values.',
+         'Base style only; benign text arguments; Agg backend.', '5/C20'),
  'C07': ('metamorphic pairs (heights above the limit redrawn / replaced by non-detections) on Hypothesis scenes with the MSA placed on and around hit heights; crop reference model',
          'Two transformed twins per case are run and compared bit-exactly with the original (tables; plus message and flag for the redraw twin); the flag and the kept rows are checked against an input-side crop model. Exploration: unbounded inputs.',
          'Trusts the crop model and the bit-exact snapshot in vlib/observe.py.', '5/C07'),
